@@ -149,6 +149,16 @@ func SymbolicRand() {}
 // MapRaces enables detection of overlapping map accesses.
 func MapRaces() {}
 
+// Races enables happens-before data-race detection on the explored
+// schedules; a race is not reported when one of its two access sites
+// contains one of the ignore strings.
+func Races(ignore ...string) {}
+
+// RacesSeen returns the number of data races detected so far on this path
+// (with Races("*") races are only counted, not reported; used by the litmus
+// tests of the detector). Natively 0.
+func RacesSeen() int { return 0 }
+
 // MapOrder enables exploration of map iteration start offsets.
 func MapOrder() {}
 
